@@ -171,7 +171,9 @@ def oevsEq : List OEv → List OEv → Bool
   | a :: as, b :: bs => oevEq a b && oevsEq as bs
   | _, _ => false
 
-/-- the observed calls satisfy C15: no panic, every call answered, the downstream sequence is
+/-- the observed calls satisfy C15 (the values are those of the events AS THE OUTPUT SEES THEM
+    WHENEVER IT ENCODES THEM: an event handed over must keep its value — the harness reads each
+    one again at the end of the case and reports `changed` otherwise, see Drv/C15.lean): no panic, every call answered, the downstream sequence is
     the spec's and the answers are the spec's; with an ill-timed time-out in the input the
     plugin's documented reaction is a panic at that call and nothing is required after it -/
 def holds (cfg : Cfg) (items : List In) (outs : List Out) (panicked : Bool) : Bool :=
